@@ -677,7 +677,7 @@ def gen_cases(thorough):
     #    reference decides which pairs are conflicts (two redirects of one stream, `>` with `|`,
     #    e>p/a>p without pipe, merge cycles) and which are legal combinations (`o> f e>p |`, `> f e>o`)
     pair_pos = ("only", "first2")
-    pair_caps = ("bare", "$()", "!()")
+    pair_caps = ("bare", "$()", "!()") if thorough else ("bare", "$()")
     for c1, c2 in itertools.product(CLASSES, repeat=2):
         for kind in kinds:
             for pos in pair_pos:
@@ -781,6 +781,9 @@ def gen_cases(thorough):
     s1 = [(), ("ERR_W",), ("E2O",), ("A2P",), ("E2P",), ("OUT_W", "E2P"), ("E2P", "OUT_W"), ("IN",)]
     s2 = [(), ("ERR_W",), ("E2O",), ("A2P",), ("E2P",), ("OUT_W", "E2P")]
     s3 = [(), ("OUT_W",), ("OUT_A",), ("ERR_W",), ("ALL_W",), ("E2O",)]
+    if not thorough:  # quick: 8 x 5 x 4 sets
+        s2 = [x for x in s2 if x != ("E2O",)]
+        s3 = [x for x in s3 if x not in (("OUT_A",), ("ALL_W",))]
     cross_shapes = (("ext",) * 3, ("thr",) * 3, ("ext", "thr", "ext"), ("thr", "ext", "thr")) if thorough else (("ext",) * 3,)
     cross_caps = CAPTURES if thorough else ("bare", "$()")
     for a, b, c3 in itertools.product(s1, s2, s3):
@@ -818,7 +821,7 @@ def gen_cases(thorough):
         ("squote", "'sp ace'", ["sp ace"]),
         ("dquote", '"sp ace"', ["sp ace"]),
     ]
-    for sp in (">", ">>", "e>", "e>>", "a>", "<"):
+    for sp in (">", ">>", "e>", "e>>", "a>", "<") if thorough else (">", ">>", "e>", "<"):
         c = classify(sp)
         content = INPUT if c == "IN" else OLD
         for fname, text, words in forms:
@@ -1032,8 +1035,8 @@ def run(ctx):
             f"{'ext|thr (all combinations)' if ctx.thorough else 'ext'} x 6 capture forms x target missing/existing, plus all 121 ordered pairs of operator "
             "classes on one stage, the malformed/unusable-target list, the no-space forms and the tutorial's combined example; chains: every class / class pair "
             f"that is legal on a non-last stage on the first and middle stage of 3-stage pipelines{' and every non-last stage of 4-stage pipelines' if ctx.thorough else ''}; "
-            "cross: 8 x 6 x 6 redirect sets on stages 1/2/3 of one pipeline at once; target forms: 15 expansions (glob / regex-glob with 0,1,2 matches, @(list) with "
-            "0,1,2 elements, @(tuple), @(str), @(''), $VAR, $VAR with a space, quoted names) x 6 file operators; each line executed by the real "
+            f"cross: {'8 x 6 x 6' if ctx.thorough else '8 x 5 x 4'} redirect sets on stages 1/2/3 of one pipeline at once; target forms: 15 expansions (glob with 0,1,2 matches, regex-glob with 1,2 "
+            f"matches, @(list) with 0,1,2 elements, @(tuple), @(str), @(''), $VAR, $VAR with a space, quoted names) x {6 if ctx.thorough else 4} file operators; each line executed by the real "
             "Execer in its own forked process with harness-owned fds 0/1/2; non-trivial = the line has at least one redirect or pipe"
         ),
         exhaustive=True,
